@@ -28,6 +28,7 @@ class Bench:
             'StringToHttpVer': lambda it, f, st, a: VERS.get(it.to_text(a[0]), 0),
             'StringToUrlPath': self.h_url, 'getContext': lambda it, f, st, a: it.ref(self.conn), 'getClientAddress': noop, 'toString': noop,
             'disconnect': self.h_disconnect, 'make_shared': self.h_ctx, 'handle': self.h_handle, 'c_str': None, 'isdigit': lambda it, f, st, a: int(isinstance(a[0], int) and 48 <= a[0] <= 57),
+            'ToLower': lambda it, f, st, a: S((it.to_text(a[0]) or '').lower()), 'ToUpper': lambda it, f, st, a: S((it.to_text(a[0]) or '').upper()),      # util::string helpers written with std::transform: modelled
             'strtoull': self.h_strtoull, '__errno_location': lambda it, f, st, a: P('errno', 0), 'memcpy': minterp.h_memcpy, 'memmove': minterp.h_memcpy,
         })
         del hooks['c_str']
